@@ -67,3 +67,43 @@ def must_push(ctx):
                 changed = True
     _cache[key] = must
     return must
+
+
+def derived_inherits(ctx, rule, field, enum_suffix, what):
+    """Component records built in analyses::components::db with `derived_from: Some(..)` (matchers, prebuilt/config constructors): `field` is
+    read from the component they derive from (a getter / the id2* table / a parameter) and is not replaced by, or re-mapped to, a constant."""
+    from ..facts import op_place
+    from ..flow import Defs, backward_slice, slice_calls, slice_aggregates
+    n = 0
+    for b in ctx.fb.bodies('pavexc'):
+        if b.is_promoted or 'analyses::components::db' not in b.nid:
+            continue
+        defs = None
+        k = 0
+        for bb, j, st in b.all_assigns():
+            rv = st['rv']
+            if rv['k'] != 'agg' or rv.get('ak') != 'adt' or field not in rv.get('fields', []) or 'derived_from' not in rv.get('fields', []):
+                continue
+            defs = defs or Defs(b)
+            dpl = op_place(rv['ops'][rv['fields'].index('derived_from')])
+            dsl, _ = backward_slice(b, dpl['l'], defs) if dpl else ([], set())
+            if not any(v == 'Some' for a, v, _, _ in slice_aggregates(dsl)):
+                continue    # not a derived component (or decided by the caller: a parameter)
+            n += 1
+            k += 1
+            o = rv['ops'][rv['fields'].index(field)]
+            pl = op_place(o)
+            consts, calls, locs = [], set(), set()
+            if pl is not None:
+                sl, locs = backward_slice(b, pl['l'], defs)
+                calls = {c for c, _, _ in slice_calls(sl)}
+                consts = sorted({str(v) for a, v, _, _ in slice_aggregates(sl) if a.endswith(enum_suffix)})
+            else:
+                consts = ['<constant operand>']
+            short = '::'.join(b.nid.split('::')[-2:])
+            inherited = any(c.split('::')[-1] in (field, 'index', 'get', 'lifecycle', 'cloning_policy') for c in calls) or any(1 <= l <= b.raw['argc'] for l in locs)
+            ok = inherited and not consts
+            ctx.ob(rule, 'inherits-%s|%s#%d' % (field, short, k), ok, b.loc(bb, st),
+                   'the derived component built in %s takes its %s from %s%s' % (short, what, sorted(c.split('::')[-2] + '::' + c.split('::')[-1] for c in calls)[:4] or 'nothing',
+                                                                               '' if not consts else ' and from the constant(s) %s: it no longer follows the component it derives from' % consts))
+    ctx.floor(rule, 'derived component records carrying a %s' % what, n, 3)
